@@ -554,6 +554,14 @@ func (c *client) lookupRegion(ctx context.Context,
 	var err error
 	backoff := backoffStart
 	for {
+		select {
+		case <-c.done:
+			// don't keep looking (in ZooKeeper, which doesn't know
+			// about c.done) after the client was closed
+			return nil, "", ErrClientClosed
+		default:
+		}
+
 		// If it takes longer than regionLookupTimeout, fail so that we can sleep
 		lookupCtx, cancel := context.WithTimeout(ctx, c.regionLookupTimeout)
 		if c.clientType == region.MasterClient {
